@@ -6,3 +6,7 @@
 mod c15_spanning;
 #[cfg(kani)]
 mod c07_fees;
+// c05_scan.rs (scan_block with an empty key set) is NOT compiled: kani-compiler 0.68 hits an internal
+// compiler error (intrinsics.rs:243) on code reachable from scan_block. Kept for the record.
+#[cfg(kani)]
+mod c03_txversion;
